@@ -428,6 +428,34 @@ def run(prog, rep, tier):
     if n1911 < 4:
         raise CheckerError("R19.11: only %d overwrites of ts_* fields found in EvtxReader::analyze (expected at least one per field)" % n1911)
 
+    # ------------------------------------------------------------ R19.12 what the summary counts for a message is what the printers write for it (lifts)
+    # The line and message counts are taken from the message's data, so the printers have to write all
+    # of it: no piece of a multi-line message goes unwritten (C13 R13.13/R13.15) and the rendering of an
+    # accounting record is not cut short by its buffer (C08 R8.13) - otherwise "Printed lines" and the
+    # per-file blocks no longer describe what reached stdout.
+    import contextlib as _c19, io as _i19
+    from common import Report as _R19
+    R1912 = rep.rule("R19.12", "the printers write everything the summary counts (from C13 R13.13/R13.15, C08 R8.13)")
+    n1912 = 0
+    for modname, pid_, rids in (("c13", "C13", ("R13.13", "R13.15")), ("c08", "C08", ("R8.13",))):
+        mod_ = __import__(modname)
+        sub_ = _R19(pid_, "quick", dict(rep.meta))
+        sub_.finish = lambda *a, **k: 0
+        try:
+            with _c19.redirect_stdout(_i19.StringIO()):
+                mod_.run(prog, sub_, "quick")
+        except CheckerError:
+            pass
+        for (rid_, key_, what_, det_) in sub_.violations:
+            if rid_ in rids:
+                rep.violation(R1912, key_.split("|", 1)[1] + "|" + rid_, what_)
+        for rid_ in rids:
+            for k_ in sorted(sub_.rules.get(rid_, {}).get("keys", ())):
+                n1912 += 1
+                rep.examined(R1912, "%s|%s" % (rid_, k_), sample={"rule": rid_, "instance": k_})
+    if n1912 < 6:
+        raise CheckerError("R19.12: only %d lifted instances" % n1912)
+
     return rep.finish(
         "Static necessary-condition check of the summary bookkeeping: the four per-kind updaters write bytes/flushed/lines/own counter/datetimes "
         "alike; in every message arm the per-file and total updaters receive exactly the print call's returned (printed, flushed); every direct "
